@@ -68,7 +68,7 @@ func (f *DescribeMethod) Call(s *slip.Scope, args slip.List, depth int) (result 
 	if m == nil {
 		slip.InvalidMethodPanic(s, depth, sc, nil, meth, "%s is not a method on %s.", meth, sc)
 	}
-	w := s.Get("*standard-output*").(io.Writer)
+	w := s.WriterVar("*standard-output*", depth)
 	if 2 < len(args) {
 		var ok bool
 		if w, ok = args[2].(io.Writer); !ok {
